@@ -376,6 +376,75 @@ func checkC01(c *Ctx) {
 		c.Eval(res.probes)
 		judgeBox(c, res, "history", a.desc+" after the caller reused its operand slice", boxOf(a.s2, a.s3), map[string]any{"alias_index": i})
 	})
+	// (d) machining: a part less a cutter that is itself not convex - a slab over one end of the part (its box spans the
+	// part's box on the other axes, as a cutting tool's does) with a pocket in it, which leaves a pin / tenon standing on
+	// the part; the slab's box reaches from inside the part to beyond, flush with, or short of the part's end
+	parallelFor(c.Pick(400, 4000), func(i int) {
+		r := c.Rng("machining", i)
+		scale := r.LogR(0.1, 50)
+		var s2 sdf.SDF2
+		var s3 sdf.SDF3
+		var desc string
+		axis := r.IR(0, 2)
+		side := float64(1 - 2*r.IR(0, 1))
+		over := pickOne(r, []float64{0, 0, 1e-9, 0.1, 0.5, -0.05}) // how far the slab spans beyond the part's box sideways
+		end := pickOne(r, []float64{0, 0.2, 1, -0.02})             // ... and beyond the part's end
+		if i%3 == 2 {
+			axis %= 2
+			l := leaf2(r, scale)
+			bb := l.s2.BoundingBox()
+			sz, ctr := bb.Size(), bb.Center()
+			cut := r.R(0.1, 0.6) * v2Get(sz, axis) // depth of the cut from the end
+			ssz := sz.AddScalar(2 * over * scale)
+			v2Set(&ssz, axis, cut+end*scale)
+			sc := ctr
+			v2Set(&sc, axis, v2Get(ctr, axis)+side*(v2Get(sz, axis)/2-cut+v2Get(ssz, axis)/2))
+			slab := sdf.Transform2D(sdf.Box2D(ssz, 0), sdf.Translate2d(sc))
+			pin, _ := sdf.Circle2D(r.R(0.05, 0.3) * math.Min(sz.X, sz.Y))
+			pc := ctr
+			v2Set(&pc, axis, v2Get(sc, axis))
+			cutter := sdf.Difference2D(slab, sdf.Transform2D(pin, sdf.Translate2d(pc)))
+			s2 = sdf.Difference2D(l.s2, cutter)
+			desc = fmt.Sprintf("Difference2D(%s, slab over the %+g end of axis %d less a disc)", l.desc, side, axis)
+		} else {
+			l := leaf3(r, scale)
+			bb := l.s3.BoundingBox()
+			sz, ctr := bb.Size(), bb.Center()
+			cut := r.R(0.1, 0.6) * sz.Get(axis)
+			ssz := sz.AddScalar(2 * over * scale)
+			ssz.Set(axis, cut+end*scale)
+			sc := ctr
+			sc.Set(axis, ctr.Get(axis)+side*(sz.Get(axis)/2-cut+ssz.Get(axis)/2))
+			slab, err := sdf.Box3D(ssz, 0)
+			if err != nil {
+				return
+			}
+			pr := r.R(0.05, 0.3) * sz.MinComponent()
+			var pin sdf.SDF3
+			if r.P(0.5) {
+				pin, _ = sdf.Sphere3D(pr * 1.5)
+			} else {
+				psz := v3.Vec{X: 2 * pr, Y: 2 * pr, Z: 2 * pr}
+				psz.Set(axis, 3*ssz.Get(axis))
+				pin, _ = sdf.Box3D(psz, 0)
+			}
+			pc := ctr
+			pc.Set(axis, sc.Get(axis))
+			cutter := sdf.Difference3D(sdf.Transform3D(slab, sdf.Translate3d(sc)), sdf.Transform3D(pin, sdf.Translate3d(pc)))
+			if i%3 == 0 {
+				s3 = sdf.Difference3D(l.s3, cutter)
+				desc = fmt.Sprintf("Difference3D(%s, slab over the %+g end of axis %d less a pin)", l.desc, side, axis)
+			} else {
+				// the same cut made with Cut3D's cousin: intersect with the complement built the other way round
+				rest := sdf.Difference3D(l.s3, sdf.Transform3D(slab, sdf.Translate3d(sc)))
+				s3 = sdf.Union3D(rest, sdf.Intersect3D(l.s3, sdf.Transform3D(pin, sdf.Translate3d(pc))))
+				desc = fmt.Sprintf("Union3D(Difference3D(%s, slab over the %+g end of axis %d), Intersect3D(part, pin))", l.desc, side, axis)
+			}
+		}
+		res := probeShape(c, r, s2, s3, budget/2)
+		c.Eval(res.probes)
+		judgeBox(c, res, "machining", desc, boxOf(s2, s3), map[string]any{"machining_index": i})
+	})
 	c01Pinned(c)
 	c.Floor(c.Pick(2000, 15000))
 }
@@ -467,5 +536,20 @@ func c01Pinned(c *Ctx) {
 				c.Violate("", fmt.Sprintf("box-leak pinned/closed-Bezier: Evaluate=%g at %v, 2.154 left of BoundingBox=%v", f, p, bb), map[string]any{"pinned": "bezier-closed-curve", "p": p})
 			}
 		}
+	}
+}
+
+func v2Get(v v2.Vec, i int) float64 {
+	if i == 0 {
+		return v.X
+	}
+	return v.Y
+}
+
+func v2Set(v *v2.Vec, i int, x float64) {
+	if i == 0 {
+		v.X = x
+	} else {
+		v.Y = x
 	}
 }
